@@ -335,6 +335,16 @@ def check_manifest(ctx):
     # idiom: fname[] is non-empty iff ldb_desc_filename(fname, ...) succeeded; the MANIFEST is created
     # only under that success and fname is not written otherwise (both checked here), hence the
     # edge `fname[0] == 0` is infeasible after the creation.
+    # the new MANIFEST is created *truncating*: a crashed earlier rollover may have left a torn file of the same name
+    # (the file number is derived from the old MANIFEST again), and appending after it would publish a MANIFEST whose
+    # first record does not check out
+    creators = [(b, i, e) for (b, i, e) in va.events("call") if is_call(e, ("ldb_truncfile_create", "ldb_appendfile_create"))]
+    ctx.require(len(creators) >= 1, "ldb_versions_apply: creation of the new MANIFEST file not found")
+    ctx.check(all(is_call(e, "ldb_truncfile_create") for b, i, e in creators), "T1-manifest-fresh-file", "apply:truncating-create", va.name, va.loc,
+              "a new MANIFEST starts as an empty file", "the new MANIFEST is opened with %s (leftover bytes of a crashed rollover are kept)" %
+              sorted({e.get("f") for b, i, e in creators}))
+    if not any(is_call(e, "ldb_truncfile_create") for b, i, e in creators):
+        return
     tc = one_call(ctx, va, "ldb_truncfile_create")[0]
     check_guard(ctx, "T2-manifest-name-flag", "create-under-name", va, tc,
                 [[("!=", CALL("ldb_desc_filename"), "0")]], "creating the new MANIFEST file")
